@@ -57,7 +57,7 @@ def gen_mo_cases(tier, seed):
     rnd = random.Random(seed * 7919 + 19)
     cases = []
     Ls = [0, 1, 7, 64, -1]
-    reps = 1 if tier == "quick" else 6
+    reps = 3 if tier == "quick" else 12
     for rep in range(reps):
         for (nodes, ppn) in LAYOUTS:
             for L in Ls:
@@ -73,6 +73,9 @@ def gen_mo_cases(tier, seed):
     # directed: big lines against the default 1 MiB buffer (crosses the real threshold)
     cases.append({"kind": "mo", "nodes": 1, "ppn": 2, "L": -1, "append": 0, "nsub": 2, "nwrites": 6, "maxlen": 400000, "flags": 1,
                   "seed": seed + 5, "sim_seed": seed})
+    for (nodes, ppn) in ((1, 4), (2, 2), (1, 1)):   # more than a filebuf's worth of data in one hot file
+        cases.append({"kind": "mo", "nodes": nodes, "ppn": ppn, "L": 64, "append": 1, "nsub": 1, "nwrites": 40, "maxlen": 2000, "flags": 2 | 8,
+                      "seed": seed + 7 + nodes, "sim_seed": seed})
     cases.append({"kind": "mo", "nodes": 1, "ppn": 1, "L": 5, "append": 1, "nsub": 3, "nwrites": 30, "maxlen": 12, "flags": 2 | 8,
                   "seed": seed + 6, "sim_seed": seed})
     return cases
@@ -83,7 +86,9 @@ def run_case(binary, case):
         args = ["mo", case["seed"], case["L"], case["append"], case["nsub"], case["nwrites"], case["maxlen"], case["flags"]]
     else:
         args = ["day", case["seed"], case["L"], case["nwrites"], ",".join(map(str, case["ts"]))]
-    return C.run_sim(binary, args, nodes=case["nodes"], ppn=case["ppn"], sim_seed=case.get("sim_seed", 1), want_log=False, timeout=120)
+    # a local time zone far from UTC: localtime instead of gmtime would show
+    return C.run_sim(binary, args, nodes=case["nodes"], ppn=case["ppn"], sim_seed=case.get("sim_seed", 1), want_log=False, timeout=120,
+                     env={"TZ": "XYZ+11:30"})
 
 
 def parse_mo(sr, ranks):
